@@ -140,8 +140,12 @@ impl TypeDependencyGraph {
             output.push_str(&format!("  └─ returns: {}\n", cmd.return_type));
         }
 
+        // Iterate in name order so the report does not change from run to run
+        let mut resolved: Vec<(&String, &StructInfo)> = self.resolved_types.iter().collect();
+        resolved.sort_by(|a, b| a.0.cmp(b.0));
+
         output.push_str("\n🏗️  Discovered Types:\n");
-        for (type_name, struct_info) in &self.resolved_types {
+        for (type_name, struct_info) in resolved.iter().copied() {
             let type_kind = if struct_info.is_enum {
                 "enum"
             } else {
@@ -158,7 +162,8 @@ impl TypeDependencyGraph {
             // Show dependencies
             if let Some(deps) = self.dependencies.get(type_name) {
                 if !deps.is_empty() {
-                    let deps_list: Vec<String> = deps.iter().cloned().collect();
+                    let mut deps_list: Vec<String> = deps.iter().cloned().collect();
+                    deps_list.sort();
                     output.push_str(&format!("  └─ depends on: {}\n", deps_list.join(", ")));
                 }
             }
@@ -166,7 +171,7 @@ impl TypeDependencyGraph {
 
         // Show dependency chains
         output.push_str("\n🔗 Dependency Chains:\n");
-        for type_name in self.resolved_types.keys() {
+        for (type_name, _) in resolved.iter().copied() {
             self.show_dependency_chain(type_name, &mut output, 0);
         }
 
@@ -186,6 +191,8 @@ impl TypeDependencyGraph {
         output.push_str(&format!("{}├─ {}\n", indent_str, type_name));
 
         if let Some(deps) = self.dependencies.get(type_name) {
+            let mut deps: Vec<&String> = deps.iter().collect();
+            deps.sort();
             for dep in deps {
                 if indent < 3 {
                     // Prevent too deep recursion in visualization
@@ -211,8 +218,10 @@ impl TypeDependencyGraph {
             ));
         }
 
-        // Add type nodes
-        for type_name in self.resolved_types.keys() {
+        // Add type nodes (name order, for reproducible output)
+        let mut type_names: Vec<&String> = self.resolved_types.keys().collect();
+        type_names.sort();
+        for type_name in type_names {
             output.push_str(&format!("  \"{}\" [color=green];\n", type_name));
         }
 
@@ -235,10 +244,14 @@ impl TypeDependencyGraph {
         }
 
         // Add type dependency edges
-        for (type_name, deps) in &self.dependencies {
-            for dep in deps {
-                output.push_str(&format!("  \"{}\" -> \"{}\";\n", type_name, dep));
-            }
+        let mut edges: Vec<(&String, &String)> = self
+            .dependencies
+            .iter()
+            .flat_map(|(type_name, deps)| deps.iter().map(move |dep| (type_name, dep)))
+            .collect();
+        edges.sort();
+        for (type_name, dep) in edges {
+            output.push_str(&format!("  \"{}\" -> \"{}\";\n", type_name, dep));
         }
 
         output.push_str("}\n");
